@@ -1229,7 +1229,7 @@ func c06Gen(r *rand.Rand, maxOps int) func(e *c06Env, n int) *c06Op {
 // against the Lean strict-peer monitor.
 func TestVerif_C06_script(t *testing.T) {
 	s := verifh.New(t, "C06", "script",
-		"real ClientConn (Transport.NewClientConn, loopback TCP) against a frame-script peer (x/net/http2 Framer + hpack), one caller/peer operation at a time to quiescence; 40 directed scripts (body sizes around 16384/65535/window+-1, INITIAL_WINDOW_SIZE up/down/negative, MAX_FRAME_SIZE, MAX_CONCURRENT_STREAMS, WINDOW_UPDATE increments and overflow, RST_STREAM, GOAWAY, padding, reads around the 4096 refresh threshold, close with unread data, browser presets, caller fingerprints) + random scripts of up to 60 operations on default/Chrome/Firefox/Safari/random fingerprints; compared: per-operation frame list (type, stream, length, flags, settings, increments) with the Lean model; property oracle: Lean monitor verdict on the recorded history, no unexpected connection close, no stall; non-trivial = at least 4 operations")
+		"real ClientConn (Transport.NewClientConn, loopback TCP) against a frame-script peer (x/net/http2 Framer + hpack), one caller/peer operation at a time to quiescence; 58 directed scripts (body sizes around 16384/65535/window+-1, INITIAL_WINDOW_SIZE up/down/negative, MAX_FRAME_SIZE, MAX_CONCURRENT_STREAMS, WINDOW_UPDATE increments and overflow, RST_STREAM, GOAWAY, padding, reads around the 4096 refresh threshold, close with unread data, browser presets, caller fingerprints; round 5, through a gate between the ClientConn and the socket that parks the writer inside a frame write: a request cancelled after a chosen octet of its header / trailer block (oc, tc), Body.Close / Body.Read / cancel on one stream while another stream's writer holds cc.wmu inside a DATA frame (hx, hr, hc), two requests with the first held between id allocation and HEADERS (open pairs), requests queued for a stream slot across SETTINGS changes) + random scripts of up to 60 operations on default/Chrome/Firefox/Safari/random fingerprints; compared: per-operation frame list (type, stream, length, flags, settings, increments) with the Lean model; property oracle: Lean monitor verdict on the recorded history, no unexpected connection close, no stall, connection- and stream-level credit owed < 4096, no lost wake-up; non-trivial = at least 4 operations")
 	log.SetOutput(io.Discard)
 	s.OracleIndependent = true // DATA/WINDOW_UPDATE sizes are the implementation's choice, the monitor is the property
 	var runs []*c06Run
